@@ -46,6 +46,7 @@ fn under_sim<T: Send>(seed: u64, f: impl FnOnce() -> T + Send) -> T {
         split: SPLITS[(sm(&mut s) % SPLITS.len() as u64) as usize],
         sched: SCHEDS[(sm(&mut s) % SCHEDS.len() as u64) as usize],
         preempt_hooks: false,
+        preempt_bb: false,
         mean_gap: [1u32, 2, 8][(sm(&mut s) % 3) as usize],
         pct_depth: 1 + (sm(&mut s) % 3) as u32,
         watchdog_s: 30,
